@@ -21,6 +21,21 @@ __CPROVER_ensures((ghost_ticks_ascending && __CPROVER_return_value < n && ghost_
 __CPROVER_assigns()
 ;
 
+/* std::upper_bound(first, last, value): first element GREATER than value; same shape of assumed contract.  Not used by the pinned code;
+   declared so that a change which switches to it stays decidable. */
+size_t std_upper_bound_idx(const double *first, size_t n, const double value)
+__CPROVER_requires(n <= VEC_MAX && __CPROVER_r_ok(first, (n ? n : 1) * sizeof(double)))
+__CPROVER_ensures(__CPROVER_return_value <= n)
+__CPROVER_ensures((__CPROVER_return_value > 0 && __CPROVER_return_value <= n) ==> !(value < first[__CPROVER_return_value - 1]))
+__CPROVER_ensures(__CPROVER_return_value < n ==> value < first[__CPROVER_return_value])
+__CPROVER_ensures((ghost_ticks_ascending && ghost_k < n && ghost_k < __CPROVER_return_value) ==> !(value < first[ghost_k]))
+__CPROVER_ensures((ghost_ticks_ascending && ghost_k < n && ghost_k >= __CPROVER_return_value) ==> value < first[ghost_k])
+__CPROVER_assigns()
+;
+static inline double_iter upper_bound(double_iter first, double_iter last, const double value)
+{
+    return first + std_upper_bound_idx(first, (size_t)(last - first), value);
+}
 /* iterator adapter: definitional, not a contract */
 static inline double_iter lower_bound(double_iter first, double_iter last, const double value)
 {
